@@ -1,4 +1,3 @@
 package main
 
 func setupTime(fx *vfixture, tm *TimeIn, vc vcase) { panic("C06 driver not built yet") }
-func setupDN(fx *vfixture, d *DNIn, vc vcase)      { panic("C04 driver not built yet") }
